@@ -131,6 +131,28 @@ Proof.
   exists n, r0. unfold issue_refresh in Hiss. injection Hiss as _ <-. cbn [t_sub t_at_sub]. auto.
 Qed.
 
+(* a registration without the refresh grant - withdrawn (DropRefresh) or left without ANY grant type
+   (DropGrants: the empty list stands for nothing, not for a default) - refreshes nothing *)
+Lemma withdrawn_refused r s pl cr n sc t :
+  find_rt s n = Some t -> In (r_client t) (norefresh s) ->
+  is_tokens (snd (step H cf r s (TokenRefresh pl cr (Some n) sc))) = false.
+Proof.
+  intros Hrt Hin. destruct (step H cf r s (TokenRefresh pl cr (Some n) sc)) as [s' x] eqn:Hs. cbn [snd].
+  destruct x; try reflexivity. exfalso. apply step_trans in Hs.
+  apply trans_refresh_inv in Hs as [n' [t' [c [sc' [[= <-] [Hrt' [Hfc [Hr _]]]]]]]].
+  rewrite Hrt in Hrt'. injection Hrt' as <-.
+  apply has_refresh_split in Hr as [_ Hn]. rewrite (proj1 (find_client_id cf _ _ Hfc)) in Hn. contradiction.
+Qed.
+
+Lemma drop_grants_step r s cl :
+  exists s', step H cf r s (DropGrants cl) = (s', ODone) /\ In cl (norefresh s')
+    /\ rtoks s' = rtoks s /\ forall c, c_id c = cl -> has_code s' c = false /\ has_refresh s' c = false.
+Proof.
+  eexists. split; [reflexivity|]. cbn [norefresh rtoks]. split; [now left|]. split; [reflexivity|].
+  intros c <-. unfold has_code, has_refresh, string_in. cbn [norefresh existsb].
+  rewrite !String.eqb_refl. rewrite ?orb_true_r. cbn [orb negb]. rewrite !andb_false_r. auto.
+Qed.
+
 (* the refreshed tokens keep the audience of the grant: the JWT access token exactly (the client
    only for a grant without audience), the ID token with the client added when missing *)
 Lemma keeps_audience pl r s cr rt scopes s' t :
